@@ -81,6 +81,7 @@ def run(ctx):
 
     from engine.run import borrow
     borrow(ctx, 'C18', ['CALC-RESTORE'], 'the SFC_CALC_* queries must leave normalisation setting and read position as they were')
+    borrow(ctx, 'C03', ['FMT-FIRST'], 'SFC_GET_CHANNEL_MAP_INFO / SFC_GET_MAX_ALL_CHANNELS copy channels entries out of tables the header readers allocated: the tables must have been sized by the final channel count')
 
     ctx.rule('MAP-ALLOC', 'SFC_GET_CHANNEL_MAP_INFO copies sf.channels entries out of psf->channel_map: every allocation stored into psf->channel_map has exactly sf.channels entries '
              '(calloc (psf->sf.channels, sizeof entry)), or is the caller\'s datasize after the rejecting test datasize != sizeof entry * sf.channels', floor=4)
